@@ -620,7 +620,72 @@ def re_driver(case, api):
     return {"id": case["id"], "obs": obs}
 
 
+# ---- Part F: derivation chains.  cell = {id, form: "bc", kind: <base function kind>, via: <chain: one digit per bind level =
+# number of arguments bound there>, ret: <form that calls the outermost function>}.  Level j binds this = tj and 10j+1, 10j+2.
+BC_BODY = "var A = []; for (var i = 0; i < arguments.length; i++) { A.push(arguments[i]); } return [this, A, a, b, c];"
+BC_KIND = {
+    "decl": "function fd(a, b, c){ %s } var f = fd;" % BC_BODY,
+    "expr": "var fe = function(a, b, c){ %s }; var f = fe;" % BC_BODY,
+    "named": "var fn = function nm(a, b, c){ %s }; var f = fn;" % BC_BODY,
+    "method": "var mo = {f(a, b, c){ %s }}; var f = mo.f;" % BC_BODY,
+    "arrow": "var host = {mk: function(){ return (a, b, c) => { %s }; }}; var f = host.mk(7, 8);" % BC_BODY,
+}
+BC_CALL = {"plain": "h(1, 2)", "call": "h.call(x1, 1, 2)", "apply": "h.apply(x1, [1, 2])", "method": "(recv.h = h, recv.h(1, 2))",
+           "new": "new h(1, 2)", "map": "ra4.map(h)[0]"}
+
+
+def bc_driver(case, api):
+    from microjs import values as V
+    kind, chain, form = case["kind"], case["via"], case["ret"]
+    ctx = api.new_context(time_limit=5.0)
+    enc = Enc(V)
+    got = []
+    ctx.set("__reg", lambda *a: (enc.register(["recv", "x1", "t1", "t2", "t3", "host", "ra4"], a), None)[1])
+    ctx.set("__emit", lambda *a: (got.append(a), None)[1])
+    levels = ["var g0 = f;"]
+    for j, ch in enumerate(chain, 1):
+        args = "".join(", %d" % (10 * j + i) for i in range(1, int(ch) + 1))
+        levels.append("var g%d = g%d.bind(t%d%s);" % (j, j - 1, j, args))
+    d = len(chain)
+    src = (CLS + "var x1 = {tag: 'x1'}; var t1 = {tag: 't1'}; var t2 = {tag: 't2'}; var t3 = {tag: 't3'}; var recv = {}; var host;"
+           " var ra4 = [4];\n" + BC_KIND[kind] + "\n" + " ".join(levels) + " var h = g%d; var prev = g%d;" % (d, d - 1) + """
+    __reg(recv, x1, t1, t2, t3, host, ra4);
+    var R; var out = 'ok';
+    try { R = %s; } catch (e) { out = '!' + __cls(e); }
+    var P = (typeof R === 'object' && R !== null && R.length === 5) ? R : [R, undefined, undefined, undefined, undefined];
+    var T = P[0];
+    var isobj = typeof T === 'object' && T !== null;
+    var len; var nam; var plen; var pnam; var PV; var pout = 'ok';
+    try { len = h.length; } catch (e) { len = '!' + __cls(e); }
+    try { nam = h.name; } catch (e) { nam = '!' + __cls(e); }
+    var linked = false; var inst = false; var insth = false;
+    if (%s) {
+      try { linked = isobj ? Object.getPrototypeOf(T) === f.prototype : false; } catch (e) { linked = '!' + __cls(e); }
+      try { inst = isobj ? T instanceof f : false; } catch (e) { inst = '!' + __cls(e); }
+      try { insth = isobj ? T instanceof h : false; } catch (e) { insth = '!' + __cls(e); }
+    }
+    try { PV = prev(1, 2); } catch (e) { pout = '!' + __cls(e); }
+    try { plen = prev.length; } catch (e) { plen = '!' + __cls(e); }
+    try { pnam = prev.name; } catch (e) { pnam = '!' + __cls(e); }
+    var PP = (typeof PV === 'object' && PV !== null && PV.length === 5) ? PV : [PV, undefined, undefined, undefined, undefined];
+    __emit(out, T, linked, inst, insth, P[1], P[2], P[3], P[4], len, nam, pout, PP[1], plen, pnam);
+    """ % (BC_CALL[form], "true" if form == "new" else "false"))
+    o = api.eval_outcome(ctx, src + "'done'", wall=20.0, cap=2_000_000)
+    if o["o"] == "host":
+        return {"id": case["id"], "obs": {"out": "host:%s" % o.get("type")}}
+    if outcome_str(o) != "done" or len(got) != 1:
+        return {"id": case["id"], "obs": {"out": "fail:" + outcome_str(o)}}
+    out, T, linked, inst, insth, A, pa, pb, pc, ln, nm, pout, PA, plen, pnam = got[0]
+    e = enc.enc
+    alen = ("n%d" % len(A._elements)) if isinstance(A, V.JSArray) else "u"
+    return {"id": case["id"], "obs": {"out": str(out), "this": e(T), "linked": e(linked), "inst": e(inst), "insth": e(insth),
+                                      "alen": alen, "args": e(A), "pa": e(pa), "pb": e(pb), "pc": e(pc), "length": e(ln), "name": e(nm),
+                                      "pout": str(pout), "pargs": e(PA), "plen": e(plen), "pname": e(pnam)}}
+
+
 def cell_driver(case, api):
+    if case["form"] == "bc":
+        return bc_driver(case, api)
     if case["form"] == "key":
         return key_driver(case, api)
     if case["form"] == "re":
